@@ -377,25 +377,145 @@ def case_strategy(draw, max_ops, sweep=False):
             "policy": draw(st.sampled_from(["fresh", "cached", "cached", "two"]))}
 
 
+# ---------------------------------------------------------------- forced seconds under other time zones
+# "Forcing a timestamp to any whole second and reading it back returns that second" does not depend on the zone the
+# process runs in.  POSIX TZ strings (no tz database needed); the seconds are placed around the zone's own daylight-
+# saving switches (the repeated hour at the end, the missing hour at the start), where a detour through local time
+# is not invertible.
+ZONES = ["CET-1CEST,M3.5.0,M10.5.0/3", "EST5EDT,M3.2.0,M11.1.0", "AEST-10AEDT,M10.1.0,M4.1.0/3",
+         "NZST-12NZDT,M9.5.0,M4.1.0/3", "IST-5:30", "UTC0", "<-03>3<-02>,M3.5.0/-2,M10.5.0/-1"]
+DELTAS = [-7200, -3601, -3600, -3599, -1800, -1, 0, 1, 1800, 3599, 3600, 3601, 7199, 7200]
+
+
+def _switches(year):
+    """seconds at which tm_isdst changes in the current zone during ``year`` (UTC year), by bisection"""
+    import calendar
+    import time as _time
+    out = []
+    t = calendar.timegm((year, 1, 1, 12, 0, 0))
+    prev = _time.localtime(t).tm_isdst
+    for d in range(1, 367):
+        t2 = t + 86400
+        cur = _time.localtime(t2).tm_isdst
+        if cur != prev:
+            lo, hi = t, t2
+            while hi - lo > 1:
+                mid = (lo + hi) // 2
+                if _time.localtime(mid).tm_isdst == prev:
+                    lo = mid
+                else:
+                    hi = mid
+            out.append((hi, "dst-end" if prev > 0 else "dst-start"))
+        t, prev = t2, cur
+    return out
+
+
+def run_tz(case, ctx):
+    import time as _time
+    nixio = _nixio()
+    old_tz = os.environ.get("TZ")
+    path = os.path.join(ctx.workdir, "c19tz.nix")
+    classes = ["zone:" + case["tz"]]
+    nontrivial = False
+    try:
+        os.environ["TZ"] = case["tz"]
+        _time.tzset()
+        sw = _switches(case["year"])
+        times = []
+        for k, (d, extra) in enumerate(case["picks"]):
+            if sw:
+                t0, cls = sw[k % len(sw)]
+                times.append((t0 + d, "%s%+d" % (cls, d) if abs(d) <= 3600 else cls + "-far"))
+                nontrivial = True
+            else:
+                times.append((extra, "zone-without-switch"))
+        if os.path.exists(path):
+            os.remove(path)
+        f = nixio.File.open(path, nixio.FileMode.Overwrite)
+        try:
+            blk = f.create_block("b", "t")
+            sec = f.create_section("s", "t")
+            ents = []
+            for i, (t, cls) in enumerate(times):
+                if not 0 <= t <= 4102444800:
+                    continue
+                da = blk.create_data_array("a%d" % i, "t", data=[1.0])
+                da.force_created_at(int(t))
+                (sec if i % 2 else da).force_updated_at(int(t))
+                got_c, got_u = da.created_at, (sec if i % 2 else da).updated_at
+                for what, got in (("created_at", got_c), ("updated_at", got_u)):
+                    if got != t:
+                        ctx.violation("C19/force-readback/other-time-zone/%s/in-session/%s" % (what, cls.rstrip("0123456789+-") or cls),
+                                      case, {"forced": t, "read": got, "zone": case["tz"], "where": cls})
+                ents.append((da.name, t, cls, i % 2 == 0))
+                classes.append("second:" + (cls.rstrip("0123456789+-") or cls))
+                ctx.count("forced-seconds-under-other-zones")
+        finally:
+            f.close()
+        f = nixio.File.open(path, nixio.FileMode.ReadOnly)
+        try:
+            for name, t, cls, upd_on_array in ents:
+                da = f.blocks["b"].data_arrays[name]
+                if da.created_at != t or (upd_on_array and da.updated_at != t):
+                    ctx.violation("C19/force-readback/other-time-zone/after-reopen/%s" % (cls.rstrip("0123456789+-") or cls), case,
+                                  {"forced": t, "created_at": da.created_at, "updated_at": da.updated_at, "zone": case["tz"]})
+        finally:
+            f.close()
+    finally:
+        if old_tz is None:
+            os.environ.pop("TZ", None)
+        else:
+            os.environ["TZ"] = old_tz
+        _time.tzset()
+        try:
+            os.remove(path)
+        except OSError:
+            pass
+    ctx.case(case, nontrivial, sorted(set(classes)))
+
+
+def _nixio():
+    import nixio
+    return nixio
+
+
+def tz_strategy():
+    return st.fixed_dictionaries({
+        "part": st.just("tz"), "tz": st.sampled_from(ZONES), "year": st.integers(1971, 2037),
+        "picks": st.lists(st.tuples(st.sampled_from(DELTAS + [-5, 7, 86400, -86400]), st.integers(0, 4102444800)),
+                          min_size=2, max_size=8)})
+
+
 def shards(tier, seed):
     n, per, mx = (12, 10, 20) if tier == "quick" else (48, 50, 36)
     specs = [{"n": per, "max_ops": mx, "seed": seed * 1000 + i} for i in range(n)]
     ns, pers = (8, 2) if tier == "quick" else (32, 6)
     specs += [{"sweep": True, "n": pers, "max_ops": 0, "seed": seed * 1000 + 500 + i} for i in range(ns)]
+    nz, perz = (2, 25) if tier == "quick" else (8, 150)
+    specs += [{"tz": True, "n": perz, "seed": seed * 1000 + 800 + i} for i in range(nz)]
     return specs
 
 
 def run_shard(spec, ctx):
+    if spec.get("tz"):
+        gen.generate(tz_strategy(), spec["n"], spec["seed"], lambda c: run_tz(c, ctx))
+        return
     gen.generate(case_strategy(spec["max_ops"], sweep=spec.get("sweep", False)), spec["n"], spec["seed"],
                  lambda c: run_case(c, ctx))
 
 
 def replay(case, ctx):
-    run_case(case, ctx)
+    if case.get("part") == "tz":
+        run_tz(case, ctx)
+    else:
+        run_case(case, ctx)
 
 
 def valid(case):
     try:
+        if case.get("part") == "tz":
+            return case["tz"] in ZONES and 1971 <= case["year"] <= 2037 and len(case["picks"]) >= 1 and \
+                all(isinstance(d, int) and abs(d) <= 86400 and 0 <= e <= 4102444800 for d, e in case["picks"])
         for o in case["prog"]:
             if o["op"] == "force_ts" and not (0 <= o["time"] <= 4102444800):
                 return False
